@@ -26,6 +26,6 @@ UNITS += [TL.unit_tokenize_without_space(), TL.unit_generated_tokens(), TL.unit_
           VIO.unit_reader_init(), VIO.unit_validate_rows(), VIO.unit_writer_write_rows(), VIO.unit_writer_close(), VIO.unit_raw_rows(), VIO.unit_padded_fixed_row(), VIO.unit_module_rows_validate(),
           RW.unit_fixed_row_writer_init(), RW.unit_delimited_row_writer_init(), RW.unit_row_writer_close(), RW.unit_row_writer_write_rows(), RW.unit_xlsx_row_writer_write_row(), RW.unit_xlsx_row_writer_write_rows(),
           APP.unit_set_options(), APP.unit_process(), APP.unit_set_cid_from_path(), APP.unit_app_init(), SQ.unit_assert_is_valid_ansi_type(), SQ.unit_other_sql_ansi_types(), SQ.unit_integer_sql_ansi_type()]
-UNITS += [VIO.unit_reader_close(), TL.unit_compat_csv()]
+UNITS += [TL.unit_compat_csv()]
 _seen = set(); UNITS = [u for u in UNITS if not (u.uid in _seen or _seen.add(u.uid))]
 UNITS += [OD.unit_ods_audit()]
